@@ -6,6 +6,7 @@ import (
 	"sync/atomic"
 
 	"github.com/wundergraph/graphql-go-tools/v2/pkg/pool"
+	"github.com/wundergraph/graphql-go-tools/v2/pkg/verifhook"
 )
 
 // InboundRequestSingleFlight is a sharded goroutine safe single flight implementation to de-couple inbound requests
@@ -98,6 +99,7 @@ func (r *InboundRequestSingleFlight) GetOrCreate(ctx *Context, response *GraphQL
 	inflight, shared := shard.m.LoadOrStore(key, request)
 	if shared {
 		request = inflight.(*InflightRequest)
+		verifhook.Yield("inbound.follower.before_add", key)
 		request.AddFollower()
 		select {
 		case <-request.Done:
@@ -117,6 +119,7 @@ func (r *InboundRequestSingleFlight) FinishOk(req *InflightRequest, data []byte)
 	if req == nil {
 		return
 	}
+	verifhook.Yield("inbound.leader.finish_ok", req.ID)
 	shard := r.shardFor(req.ID)
 	shard.m.Delete(req.ID)
 	if req.HasFollowers() {
@@ -124,6 +127,7 @@ func (r *InboundRequestSingleFlight) FinishOk(req *InflightRequest, data []byte)
 		req.Data = make([]byte, len(data))
 		copy(req.Data, data)
 	}
+	verifhook.Yield("inbound.leader.before_close", req.ID)
 	close(req.Done)
 }
 
@@ -131,6 +135,7 @@ func (r *InboundRequestSingleFlight) FinishErr(req *InflightRequest, err error) 
 	if req == nil {
 		return
 	}
+	verifhook.Yield("inbound.leader.finish_err", req.ID)
 	shard := r.shardFor(req.ID)
 	shard.m.Delete(req.ID)
 	req.Err = err
